@@ -131,6 +131,18 @@ def histories(draw):
                 apply_ref(G, ["set_value", gen._jsid(canon), n, args, op[5]])
             elif k == 5:
                 hist.append(["capture", sid, gen._jsid(canon)])
+                if sum(1 for x in canon if not isinstance(x, str)) >= 2 and draw(st.booleans()):
+                    # a handle to an instance inside an instance; the outer space then gets a parameter formula
+                    # under which the same call binds other arguments (a further parameter / another default)
+                    f = s.formula
+                    ps = [list(x) for x in f["params"]]
+                    if len(ps) == 1:
+                        ps.append(["q", draw(st.integers(0, 2))])
+                    else:
+                        ps[1][1] = (ps[1][1] or 0) + 1
+                    op = ["set_formula", list(s.path), dict(f, params=ps)]
+                    if gen.apply_edit_to_picture(G, op):
+                        hist.append(op)
             else:
                 hist.append(["ieval", sid, gen._jsid(canon), n, args])
         else:
